@@ -5,6 +5,7 @@
 #include <cstdint>
 #include <cstring>
 #include <initializer_list>
+#include <iterator>
 #include <limits>
 #include <stdexcept>
 
@@ -1101,6 +1102,12 @@ struct DefineDestructor : std::integral_constant<bool, !std::is_trivially_destru
 template <class T>
 struct DefineDestructor<T, false> : std::integral_constant<bool, true> {};
 
+/// True for iterators that are input iterators only (single pass): std::distance would consume such a range.
+template <class It>
+struct IsSinglePass
+    : std::integral_constant<bool, !std::is_base_of<std::forward_iterator_tag,
+                                                     typename std::iterator_traits<It>::iterator_category>::value> {};
+
 /// Implementation class with definitions independent from the traits of type T and number of elements
 template <class T, class Alloc, class SizeType, bool WithInlineElements, class GrowingPolicy>
 class VectorImpl : public VectorDestr<T, Alloc, SizeType, WithInlineElements, GrowingPolicy,
@@ -1232,6 +1239,14 @@ class VectorImpl : public VectorDestr<T, Alloc, SizeType, WithInlineElements, Gr
   /// The behavior is undefined if either argument is an iterator into *this.
   template <class InputIt, typename std::enable_if<!std::is_integral<InputIt>::value, bool>::type = true>
   void assign(InputIt first, InputIt last) {
+    if (IsSinglePass<InputIt>::value) {
+      // the range can be traversed only once: its length cannot be computed beforehand
+      clear();
+      for (; first != last; ++first) {
+        this->emplace_back(*first);
+      }
+      return;
+    }
     uintmax_t count = std::distance(first, last);
     if (static_cast<uintmax_t>(this->size()) < count) {
       this->adjustCapacity(count);
@@ -1287,6 +1302,16 @@ class VectorImpl : public VectorDestr<T, Alloc, SizeType, WithInlineElements, Gr
   template <class InputIt, typename std::enable_if<!std::is_integral<InputIt>::value, bool>::type = true>
   iterator insert(const_iterator position, InputIt first, InputIt last) {
     assert(position >= this->cbegin() && position <= cend());
+    if (IsSinglePass<InputIt>::value) {
+      // the range can be traversed only once: append its elements, then rotate them into place
+      SizeType idx = static_cast<SizeType>(position - this->begin());
+      SizeType oldSize = this->size();
+      for (; first != last; ++first) {
+        this->emplace_back(*first);
+      }
+      std::rotate(this->begin() + idx, this->begin() + oldSize, end());
+      return this->begin() + idx;
+    }
     typename std::iterator_traits<InputIt>::difference_type count = std::distance(first, last);
     iterator pos;
     if (count > 0) {
@@ -1380,6 +1405,13 @@ class VectorImpl : public VectorDestr<T, Alloc, SizeType, WithInlineElements, Gr
   /// The behavior is undefined if first and last are iterators into *this
   template <class InputIt, typename std::enable_if<!std::is_integral<InputIt>::value, bool>::type = true>
   void append(InputIt first, InputIt last) {
+    if (IsSinglePass<InputIt>::value) {
+      // the range can be traversed only once: its length cannot be computed beforehand
+      for (; first != last; ++first) {
+        this->emplace_back(*first);
+      }
+      return;
+    }
     this->adjustCapacity(static_cast<uintmax_t>(this->size()) + std::distance(first, last));
     this->setSize(static_cast<SizeType>(amc::uninitialized_copy(first, last, end()) - this->begin()));
   }
